@@ -61,6 +61,28 @@ theorem keyed_recv_one_fate (cfg : Cfg) (b : Nat) (evs : List Ev) (p q : Trace) 
       · exact ⟨_, h, Or.inl rfl⟩
       · exact ⟨_, h, Or.inr (Or.inl rfl)⟩
 
+/-- **A message never wakes a request that waits under another key** — in particular a
+    type-matched MRP request (`generate_identifier=False`; one per message type at a time, so its
+    pseudo identifier `type_N` is a key like any other, spelt "no identifier + type N" on the
+    wire) is not woken by a message that carries an identifier of its own, stale or unknown. -/
+theorem keyed_other_key_not_woken (cfg : Cfg) (b : Nat) (evs : List Ev) (p q : Trace) (c v : Nat)
+    (o : List Out) (h : ktrace cfg b evs = p ++ (.recv (some c) v, o) :: q)
+    (r' c' : Nat) (hs : Out.sent r' c' ∈ outs p) (hne : c' ≠ c) :
+    ∀ k w, Out.deliver r' k w ∉ o := by
+  intro k w hd
+  obtain ⟨x, hx, hcase⟩ := keyed_recv_one_fate cfg b evs p q (some c) v o h
+  rw [hx] at hd
+  simp only [List.mem_singleton] at hd
+  subst hd
+  rcases hcase with hc | hc | ⟨r, c1, heq, hk, hsr, _⟩
+  · cases hc
+  · cases hc
+  · cases heq; cases hk
+    have hmem : ∀ y, y ∈ outs p → y ∈ outs (ktrace cfg b evs) := by
+      intro y hy; rw [h, outs_append]; exact List.mem_append_left _ hy
+    have := (keyed_keys_unique cfg b evs r' r' c' c (hmem _ hs) (hmem _ hsr)).mpr rfl
+    exact hne this
+
 /-- **A response reaches the request it answers**, whatever else is outstanding and in whatever
     order the device answers: a message carrying the identifier of a request that is still
     waiting is returned to exactly that caller. -/
